@@ -1,0 +1,19 @@
+//go:build verif
+// +build verif
+
+// Machine-checked contracts for package mathlib (comment-only; read by /verif/govc).
+
+package mathlib
+
+// math.random(m, n) with a range wider than half the integers draws 64-bit
+// numbers until one falls in the range: each draw succeeds with probability
+// at least 1/2, but nothing bounds or charges the retries (C05, recorded
+// finding).  The rest of the function is under the library's safety contract.
+//@ func random
+//@   prop C04 C05
+//@   arith int
+//@   requires t != nil && t.Runtime != nil && c != nil && c.GoFunction != nil && c.next != nil && 0 <= c.nArgs && c.nArgs <= len(c.args) && len(c.args) == 2
+//@   modifies everything()
+//@   exits ContextTerminationError
+//@   effects unmetered-loop 1
+//@   loop 1: invariant true
